@@ -11,6 +11,7 @@ CONSTANTS
   MaxFatal = 1
   Timer = TRUE
   EmitMode = "none"
+  Record = TRUE
 VIEW View0
 INVARIANTS TypeOK PerSeriesOrder NoDup NoDropLeak Conservation ShardFifo Complete
 CHECK_DEADLOCK FALSE
